@@ -229,7 +229,7 @@ def check_container(case):
         res.fail('container/to_dataframe/index', f'{detail}: index {list(df.index)!r}')
         return res
     for nm in c.index:
-        series = np.asarray(c[nm])
+        series = np.asarray(c.__dict__['_' + nm])      # (from storage, not through the item interface)
         col = df[nm]
         if not all(same_value(a, b) for a, b in zip(col.to_numpy().tolist(), series.tolist())):
             res.fail(f'container/to_dataframe/values/{series.dtype.kind}', f'{detail}: column {nm} = {col.to_numpy().tolist()}, series {series.tolist()}')
